@@ -7,6 +7,7 @@ while args and args[0].startswith('--'):
     if args[0] == '--round2': root = '/tmp/seed2'; args = args[1:]
     elif args[0] == '--round3': root = '/tmp/seed3'; args = args[1:]
     elif args[0] == '--round4': root = '/tmp/seed4'; args = args[1:]
+    elif args[0] == '--round5': root = '/tmp/seed5'; args = args[1:]
     elif args[0] == '--as': as_k = args[1]; args = args[2:]
 prop, k = args[0], args[1]
 det = args[2:]
@@ -18,13 +19,13 @@ for f in ('patch.diff', 'demo.cpp', 'notes.md'):
         shutil.copy(os.path.join(src, f), dst)
 import glob
 conf = []
-for lf in ['/tmp/seed/confirm.log'] + sorted(glob.glob('/tmp/seed2/round2*.log')) + sorted(glob.glob('/tmp/seed3/round3*.log')) + sorted(glob.glob('/tmp/seed4/round4*.log')):
+for lf in ['/tmp/seed/confirm.log'] + sorted(glob.glob('/tmp/seed2/round2*.log')) + sorted(glob.glob('/tmp/seed3/round3*.log')) + sorted(glob.glob('/tmp/seed4/round4*.log')) + sorted(glob.glob('/tmp/seed5/round5*.log')):
     if os.path.exists(lf):
         conf += [l.strip() for l in open(lf) if ('%s/%s/seed_out/%s ' % (root, prop, k)) in l and l.startswith(('CONFIRMED', 'REJECTED'))]
 notes = open(os.path.join(dst, 'notes.md')).read() if os.path.exists(os.path.join(dst, 'notes.md')) else ''
 files = sorted(set(re.findall(r'^\+\+\+ b/(\S+)', open(os.path.join(dst, 'patch.diff')).read(), re.M)))
 meta = dict(
-    property=prop, seed=int(as_k or k), seeding_round=4 if root.endswith('4') else 3 if root.endswith('3') else 2 if root.endswith('2') else 1, files_touched=files,
+    property=prop, seed=int(as_k or k), seeding_round=5 if root.endswith('5') else 4 if root.endswith('4') else 3 if root.endswith('3') else 2 if root.endswith('2') else 1, files_touched=files,
     origin="written by an independent sub-agent that was given only the text of the property and a scratch worktree (nothing from /verif)",
     needs_to_manifest="see notes.md (trigger section)",
     confirmed_by="scripts/confirm_seed.sh in a scratch worktree of /repo HEAD: patched tree builds, unedited suite passes (ctest -j1 31/31), demo exits non-zero with the patch and 0 without",
